@@ -176,8 +176,49 @@ func (m *C01) OnStep(w *ops.World, st *ops.Step) {
 					if !d.Equal(ZI(st.Amount)) {
 						bad("positive NST adjustment %s", st.Amount)
 					}
-				} else if d.IsPositive() || d.LT(ZI(st.Amount)) {
-					bad("negative NST adjustment %s out of [d,0]", st.Amount)
+				} else if d.IsPositive() {
+					bad("negative NST adjustment %s increased the sum", st.Amount)
+				} else if st.Staker != nil {
+					// exactly min(|d|, everything the staker has) leaves the ledger: first the withdrawable balance,
+					// then pending undelegations, then delegated shares (the last phase truncates per delegation)
+					avail := Z{}
+					if row, ok := pre.Staker[st.Staker.ID+"/"+a]; ok {
+						avail = avail.Add(ZI(row.WithdrawableAmount))
+					}
+					beforeShares := avail
+					for _, r := range pre.Undel {
+						if r.StakerID == st.Staker.ID && r.AssetID == a {
+							avail = avail.Add(ZI(r.ActualCompletedAmount))
+						}
+					}
+					beforeShares = avail
+					nDel := int64(0)
+					delegated := Z{}
+					for k, dl := range pre.Delegation {
+						p := strings.Split(k, "/")
+						if len(p) == 3 && p[0] == st.Staker.ID && p[1] == a && dl.UndelegatableShare.IsPositive() {
+							delegated = delegated.Add(ZI(ops.Position(pre, p[0], p[1], p[2])))
+							nDel++
+						}
+					}
+					avail = avail.Add(delegated)
+					want := ZI(st.Amount.Neg())
+					tol := int64(0)
+					if avail.LT(want) {
+						want = avail
+					}
+					tolZ := big.NewInt(0)
+					if beforeShares.LT(ZI(st.Amount.Neg())) {
+						// the share phase works with an 18-decimal proportion and truncates per delegation
+						tol = nDel + 1
+						tolZ = new(big.Int).Quo(delegated.b(), big.NewInt(100_000_000_000_000_000))
+					}
+					tolZ.Add(tolZ, big.NewInt(tol))
+					m.S.Eval("nst-decrease-exact")
+					diff := d.Neg().Sub(want)
+					if diff.b().CmpAbs(tolZ) > 0 {
+						bad("negative NST adjustment %s: ledger lost %s, want min(|d|, available %s) = %s (tolerance %s)", st.Amount, d.Neg(), avail, want, tolZ)
+					}
 				}
 			} else if !d.IsZero() {
 				bad("other asset moved")
